@@ -16,6 +16,8 @@ undo exactly those steps before a rule looks at an expression:
   prefixes_of    s.startswith(a) or s.startswith(b) / s.startswith((a, b))
 """
 import ast
+
+from .astutil import clone
 import copy
 
 from .consteval import UNKNOWN, Regex
@@ -132,10 +134,10 @@ def subst_locals(fnode, e, depth=5, stop=()):
                 if v is not None and not any(
                         isinstance(x, ast.Name) and x.id == n.id
                         for x in ast.walk(v)):
-                    r = T(self.d - 1).visit(copy.deepcopy(v))
+                    r = T(self.d - 1).visit(clone(v))
                     return ast.copy_location(r, n)
             return n
-    return T(depth).visit(copy.deepcopy(e))
+    return T(depth).visit(clone(e))
 
 
 def fold(ctx, f, e):
